@@ -55,27 +55,30 @@ Qed.
    condition; OnRetriesExceeded exactly when the budget (max retries or max duration) is exhausted and the outcome is not
    an abort; and either of the two ends the policy's run (Done), so neither can fire twice in one run ---- *)
 Theorem retry_failure_events cfg pos c r w :
+  let w0 := pause (ev_with_result w c KPolFailure pos r) (r_lsn_dur cfg) in    (* OnFailure logged, and its listener has returned *)
   let failed := rs_failed (get_rstate w pos) + 1 in
   let exceeded := (negb (r_max_retries cfg =? -1) && (r_max_retries cfg <? failed))
-                  || (negb (r_max_duration cfg =? 0) && (r_max_duration cfg <? w_now w - w_start w)) in
+                  || (negb (r_max_duration cfg =? 0) && (r_max_duration cfg <? w_now w0 - w_start w0)) in
   let abortable := is_abortable (r_abort cfg) (pr_out r) in
   kps (snd (retry_on_failure cfg pos c r w)) =
     (if exceeded && negb abortable then [(KRetriesExceeded, pos)] else [])
-    ++ (if abortable then [(KAbort, pos)] else []) ++ (KPolFailure, pos) :: kps w
+    ++ (if abortable then [(KAbort, pos)] else []) ++ kps w0
+  /\ (r_lsn_dur cfg <= 0 -> kps w0 = (KPolFailure, pos) :: kps w)
   /\ (abortable || exceeded = true -> pr_done (fst (retry_on_failure cfg pos c r w)) = true)
   /\ rs_exceeded (get_rstate (snd (retry_on_failure cfg pos c r w)) pos) = exceeded.
 Proof.
   cbv zeta. unfold retry_on_failure.
-  set (w0 := ev_with_result w c KPolFailure pos r).
-  assert (R0 : get_rstate w0 pos = get_rstate w pos) by reflexivity.
-  assert (N0 : w_now w0 - w_start w0 = w_now w - w_start w).
-  { subst w0. unfold ev_with_result, stamp, emit. cbn [w_trace set_trace w_now w_start]. reflexivity. }
-  rewrite R0, N0.
+  set (w0 := pause (ev_with_result w c KPolFailure pos r) (r_lsn_dur cfg)).
+  assert (R0 : get_rstate w0 pos = get_rstate w pos).
+  { subst w0. apply get_rstate_ext. rewrite (sp_retry _ _ (pause_sps _ _)). reflexivity. }
+  rewrite R0.
   set (exceeded := (negb (r_max_retries cfg =? -1) && (r_max_retries cfg <? rs_failed (get_rstate w pos) + 1))
-                   || (negb (r_max_duration cfg =? 0) && (r_max_duration cfg <? w_now w - w_start w))).
+                   || (negb (r_max_duration cfg =? 0) && (r_max_duration cfg <? w_now w0 - w_start w0))).
   set (abortable := is_abortable (r_abort cfg) (pr_out r)).
   set (w1 := put_rstate w0 pos _).
-  assert (K1 : kps w1 = (KPolFailure, pos) :: kps w) by (subst w1 w0; unfold put_rstate; cbn [kps w_trace set_retry]; apply kps_ev).
+  assert (K1 : kps w1 = kps w0) by reflexivity.
+  assert (K0 : r_lsn_dur cfg <= 0 -> kps w0 = (KPolFailure, pos) :: kps w).
+  { intros Hd. subst w0. unfold pause. destruct (0 <? r_lsn_dur cfg) eqn:E; [lia|apply kps_ev]. }
   assert (G : forall w', w_retry w' = w_retry w1 -> rs_exceeded (get_rstate w' pos) = exceeded).
   { intros w' Hw. rewrite (get_rstate_ext w1 w' pos Hw). subst w1. rewrite get_put_rstate. reflexivity. }
   assert (Gev : forall k, rs_exceeded (get_rstate (ev_with_result w1 c k pos r) pos) = exceeded) by (intros k; apply G; reflexivity).
@@ -83,13 +86,13 @@ Proof.
     by (intros k k'; apply G; reflexivity).
   destruct abortable, exceeded; cbn [negb andb orb app].
   - destruct (negb (r_return_last cfg)); cbn [fst snd]; rewrite kps_ev, K1.
-    + split; [reflexivity|]. split; [intros _; reflexivity|apply Gev].
-    + split; [reflexivity|]. split; [intros _; reflexivity|apply Gev].
-  - cbn [fst snd]. rewrite kps_ev, K1. split; [reflexivity|]. split; [intros _; reflexivity|apply Gev].
+    + split; [reflexivity|]. split; [exact K0|]. split; [intros _; reflexivity|apply Gev].
+    + split; [reflexivity|]. split; [exact K0|]. split; [intros _; reflexivity|apply Gev].
+  - cbn [fst snd]. rewrite kps_ev, K1. split; [reflexivity|]. split; [exact K0|]. split; [intros _; reflexivity|apply Gev].
   - destruct (negb (r_return_last cfg)); cbn [fst snd]; rewrite kps_ev, K1.
-    + split; [reflexivity|]. split; [intros _; reflexivity|apply Gev].
-    + split; [reflexivity|]. split; [intros _; reflexivity|apply Gev].
-  - cbn [fst snd]. rewrite K1. split; [reflexivity|]. split; [discriminate|apply G; reflexivity].
+    + split; [reflexivity|]. split; [exact K0|]. split; [intros _; reflexivity|apply Gev].
+    + split; [reflexivity|]. split; [exact K0|]. split; [intros _; reflexivity|apply Gev].
+  - cbn [fst snd]. rewrite K1. split; [reflexivity|]. split; [exact K0|]. split; [discriminate|apply G; reflexivity].
 Qed.
 
 (* ---- OnTimeoutExceeded: logged by the timer callback, which is also what makes the Timeout report ErrExceeded ---- *)
